@@ -280,6 +280,40 @@ def run_case(rng, ctx):
         zero = a.sum([], a.dom, a.cod)
         law("sum", F(zero), Fa.sum([], Fa.dom, Fa.cod))
         law("sum", F((a + alt) >> b), (Fa >> Fb) + (F(alt) >> Fb))
+    # bubbles: F(inside.bubble(dom, cod)) is the bubble of the image with the
+    # images of the DECLARED boundary (which may differ from the inside's and
+    # whose image may be empty), also inside a composite
+    try:
+        explicit = rng.random() < .7
+        bdom = kit.rand_ty(rng, rng.choice([0, 1, 2])) if explicit else a.dom
+        bcod = kit.rand_ty(rng, rng.choice([0, 1, 2])) if explicit else a.cod
+        bub = a.bubble(dom=bdom, cod=bcod) if explicit else a.bubble()
+        Fbub = F(bub)
+        law("bubble", Fbub, Fa.bubble(dom=F(bdom), cod=F(bcod)), bubble_dom=repr(bdom),
+            bubble_cod=repr(bcod), explicit_boundary=explicit)
+        ctx.expect("predicted-image",
+                   tykey(Fbub.dom) == tuple(x for ob in tykey(bdom) for x in ob_image(ob))
+                   and tykey(Fbub.cod) == tuple(x for ob in tykey(bcod) for x in ob_image(ob))
+                   and len(Fbub.boxes) == 1
+                   and struct.key(Fbub.boxes[0].inside) == struct.key(Fa),
+                   kind="dom/cod/inside of the image of a bubble",
+                   bubble_dom=repr(bdom), bubble_cod=repr(bcod),
+                   image=lambda: safe_repr(Fbub, 600), **witness)
+        pre = kit.box_with_dom(rng, kit.rand_ty(rng, rng.randint(0, 2)), cod=bdom)
+        bb = base_of(pre)
+        if struct.boxkey(bb) not in ar_keys:
+            ar[bb] = img_kit.box_with_dom(rng, image_ty(bb.dom), cod=image_ty(bb.cod))
+            ar_keys[struct.boxkey(bb)] = struct.key(ar[bb])
+        law("then", F(pre >> bub), F(pre) >> Fbub, through="bubble")
+        law("dom-cod", (F(pre >> bub).dom, F(pre >> bub).cod), (F(pre.dom), F(bcod)),
+            through="bubble")
+        law("tensor", F(bub @ c), Fbub @ Fc, through="bubble")
+        ctx.count("bubbles_mapped")
+        if not len(F(bdom)) or not len(F(bcod)):
+            ctx.count("bubbles_with_an_empty_boundary_image")
+    except Exception as err:
+        ctx.fail("law:bubble", exception=type(err).__name__, message=str(err)[:300],
+                 **witness)
     if rigid:
         rigid_case(rng, ctx, kit, F, images, image_keys, witness, law)
         if ctx.index % 4 == 1:
